@@ -150,7 +150,7 @@ P08_OnlyUriAttr(w, ev, w2, h, r) ==
   \A a \in Accts(w) \cap Accts(w2) : \A k \in (DOMAIN w.acct[a].esdt) \cap (DOMAIN w2.acct[a].esdt) :
      (w.acct[a].esdt[k].meta # w2.acct[a].esdt[k].meta \/ w.acct[a].esdt[k].hm # w2.acct[a].esdt[k].hm) =>
         \/ (Call(ev) /\ IsOk(ev) /\ ev.fn \in {"ESDTNFTAddURI", "ESDTNFTUpdateAttributes"} /\ ev.caller = a /\ k = Arg(ev,1).h \o NBHex(Arg(ev,2).n))
-        \/ (Call(ev) /\ IsOk(ev) /\ ev.fn \in TokenFns /\ w2.acct[a].esdt[k].val > w.acct[a].esdt[k].val)
+        \/ (Call(ev) /\ IsOk(ev) /\ ev.fn \in TokenFns /\ a # ev.caller /\ w2.acct[a].esdt[k].val >= w.acct[a].esdt[k].val)   \* received a copy (also of quantity 0)
 P08_UriAttrExact(w, ev, w2, h, r) ==
   (Call(ev) /\ IsOk(ev) /\ ev.fn \in {"ESDTNFTAddURI", "ESDTNFTUpdateAttributes"} /\ Pred(r)) =>
      (r.ok /\ w2.acct = r.w.acct /\ w2.paused = w.paused /\ w2.msgs = w.msgs)
